@@ -98,6 +98,12 @@ def gen_case(rnd, idx, forced_ctx=None, forced_root=None, n=None):
             src = src[:body_start] + "pub struct %s(%s);\n\n" % (names[i], ", ".join("pub " + e for e in elems))
         else:
             src = rg.struct_src(names[i], fields, derives=derives, derive_style=style)
+            if not edges[i] and rnd.random() < 0.35:
+                # a struct that puts nothing on the wire is a type like any other: unit struct, empty braces, every field skipped
+                form = rnd.choice(["unit", "empty", "all-skipped"])
+                head = src[:src.index("pub struct %s {" % names[i])]
+                src = head + {"unit": "pub struct %s;\n\n", "empty": "pub struct %s {}\n\n",
+                              "all-skipped": "pub struct %s {\n    #[serde(skip)]\n    pub cache: i32,\n    #[serde(skip)]\n    pub other: String,\n}\n\n"}[form] % names[i]
         if inline_mods and i % 2 == 1:
             # the definition sits in an inline module of its file (pub mod models { .. }): still defined by that file
             src = "pub mod m_%d_%d {\n    use super::*;\n%s}\n\n" % (idx, i, "".join("    " + ln + "\n" if ln else "\n" for ln in src.rstrip("\n").split("\n")))
